@@ -16,8 +16,14 @@ theorem feq_ne {a b : ℝ} (h : a ≠ b) : feq a b = false := by
   · simp [not_le.mpr h']
 
 
+/-- `laplace.py:Laplace.randomise` -/
+noncomputable def gen_laplaceSamplerScale (e d s : ℝ) : ℝ := (s / (e - (Real.log ((1 : ℝ) - d))))
+theorem gen_laplaceSamplerScale_eq (e d s : ℝ)  : gen_laplaceSamplerScale e d s = laplaceScale e d s := by
+  unfold gen_laplaceSamplerScale
+  simp only [laplaceScale, transc_log]
+
 /-- `laplace.py:Laplace.variance` -/
-noncomputable def gen_laplaceVariance (e d s : ℝ) : ℝ := ((2 : ℝ) * ((s / (e - (Real.log (1 + (-d))))) ^ 2))
+noncomputable def gen_laplaceVariance (e d s : ℝ) : ℝ := ((2 : ℝ) * ((s / (e - (Real.log ((1 : ℝ) - d)))) ^ 2))
 theorem gen_laplaceVariance_eq (e d s : ℝ)  : gen_laplaceVariance e d s = laplaceVariance e d s := by
   unfold gen_laplaceVariance
   simp only [laplaceVariance, Cont.sq, transc_log, transc_pow, Real.rpow_two]
